@@ -273,7 +273,8 @@ class _Fn:
         if k == "VarDecl":
             ty = n.get("type", {}).get("qualType", "")
             m = re.match(r".*\[(\d+)\]$", ty)
-            self.locals[n.get("name")] = {"type": ty, "size": int(m.group(1)) if m else None}
+            self.locals[n.get("name")] = {"type": ty, "size": int(m.group(1)) if m else None,
+                                          "storage": n.get("storageClass") or "auto"}
             if n.get("inner") and n.get("init"):
                 self.assigns.append({"lhs": ["var", n.get("name")], "rhs": summ(n["inner"][-1]), "line": n["_loc"][1]})
         if k == "BinaryOperator" and n.get("opcode") == "=":
@@ -313,7 +314,13 @@ def analyse_unit(args):
         f = _Fn(n, repo)
         if f.has_body:
             fns.append(f.dump())
-    return {"functions": fns}
+    globs = []
+    for n in tu.get("inner", []):
+        if n.get("kind") == "VarDecl" and n.get("_loc") and n["_loc"][0] and \
+                os.path.abspath(n["_loc"][0]).startswith(os.path.abspath(repo) + os.sep):
+            globs.append({"name": n.get("name"), "type": n.get("type", {}).get("qualType", ""),
+                          "file": os.path.relpath(n["_loc"][0], repo)})
+    return {"functions": fns, "globals": globs}
 
 
 # ---------------------------------------------------------------------------
@@ -570,6 +577,40 @@ class Analysis:
                 return True
         return False
 
+    # internal functions through which a path buffer travels although they are not OS sinks themselves
+    PATH_HELPERS = {"libxmp_find_instrument_file": (1, 3), "libxmp_copy_name_for_fopen": (0,),
+                    "libxmp_check_filename_case": (0, 1, 2), "get_temp_dir": (0,)}
+
+    def path_buffers(self, globs):
+        """every character buffer / string pointer *variable* that is handed, as a path, to an OS sink, to a function
+        forwarding to one, or to the sanitiser / lookup functions, with its storage class"""
+        rows = set()
+        for f in self.fns.values():
+            for c in f["calls"]:
+                cal = c["callee"]
+                idxs = set(self.tracked.get(cal, {})) | set(self.PATH_HELPERS.get(cal, ()))
+                if cal in self.tempout:
+                    idxs |= set(self.tempout[cal])
+                for i in idxs:
+                    if i >= len(c["args"]):
+                        continue
+                    t = c["args"][i]
+                    while t[0] in ("addr", "index", "deref") and isinstance(t[1], list):
+                        t = t[1]
+                    if t[0] != "var":
+                        continue
+                    v = t[1]
+                    if v in f["locals"]:
+                        ty, st = f["locals"][v]["type"], f["locals"][v]["storage"]
+                        st = "auto" if st in ("auto", "register") else ("staticLocal" if st == "static" else st)
+                    else:
+                        g = globs.get(v, {})
+                        ty, st = g.get("type", "?"), "global"
+                    if "char" not in ty:
+                        continue
+                    rows.add((f["file"], f["name"], v, ty, st))
+        return sorted(rows)
+
     PATH_FIELDS = ("dirname", "basename", "instrument_path")
 
     def field_writes(self):
@@ -724,6 +765,13 @@ inductive FieldWrite where
   | other (why : String)
   deriving Repr, DecidableEq
 
+/-- storage class of a path buffer variable -/
+inductive Storage where
+  | auto            -- automatic (stack) variable of the function; a pointer held there may point to the heap
+  | staticLocal     -- `static` inside a function: one instance for the whole process
+  | global          -- file scope
+  deriving Repr, DecidableEq
+
 structure Site where
   file : String
   func : String
@@ -741,11 +789,13 @@ def generate(bdir=None, repo=None):
     units = compile_units(bdir)
     with ProcessPoolExecutor(max_workers=vlib.NCPU) as ex:
         res = list(ex.map(analyse_unit, [(f, fl, repo) for f, fl in units], chunksize=4))
-    fns = []
+    fns, globs = [], {}
     for r in res:
         if "error" in r:
             raise vlib.InfraError("clang AST dump failed: " + r["error"])
         fns += r["functions"]
+        for g in r["globals"]:
+            globs.setdefault(g["name"], g)
     an = Analysis(fns)
     sites = an.run()
     # one entry per (file, function, callee, arg, provenance); line numbers are dropped on purpose
@@ -761,6 +811,13 @@ def generate(bdir=None, repo=None):
     out.append("/-- functions that return the name of a temporary file through parameter `arg` -/")
     out.append("def tempOutParams : List (String × Nat) := [%s]\n" % ", ".join(
         "(%s, %d)" % (lean_str(n), i) for n, s in sorted(an.tempout.items()) for i in sorted(s)))
+    pb = an.path_buffers(globs)
+    out.append("/-- every character buffer / string variable handed as a path to an OS call, to a function forwarding to one, or to the")
+    out.append("sanitiser / lookup functions: (file, function, variable, C type, storage class).  A buffer with static storage would be")
+    out.append("shared by all contexts and threads. -/")
+    out.append("def pathBuffers : List (String × String × String × String × Storage) := [\n" + ",\n".join(
+        "  (%s, %s, %s, %s, .%s)" % (lean_str(a), lean_str(b), lean_str(c), lean_str(d), e if e in ("auto", "staticLocal", "global") else "global")
+        for a, b, c, d, e in pb) + "]\n")
     fw = an.field_writes()
     out.append("/-- every assignment to `dirname`, `basename`, `instrument_path` of `struct module_data`: (file, function, field, value) -/")
     out.append("def fieldWrites : List (String × String × String × FieldWrite) := [\n" + ",\n".join(
@@ -782,7 +839,7 @@ def generate(bdir=None, repo=None):
     out.append("end Xmp.Gen.OpenSites\n")
     text = "\n".join(out)
     changed = vlib.write_if_changed(os.path.join(vlib.LEAN, "XmpModel", "Gen", "OpenSites.lean"), text)
-    return {"sites": rows, "wrappers": wrappers, "units": len(units), "functions": len(an.fns), "changed": changed, "field_writes": fw, "min_header": int(mh.group(1)) if mh else 0,
+    return {"sites": rows, "wrappers": wrappers, "units": len(units), "functions": len(an.fns), "changed": changed, "field_writes": fw, "path_buffers": pb, "min_header": int(mh.group(1)) if mh else 0,
             "tempout": {k: sorted(v) for k, v in an.tempout.items()}}
 
 
